@@ -74,7 +74,16 @@ pub fn install_panic_hook() {
             .map(|l| {
                 let f = l.file();
                 // keep path relative to the repository if possible
-                let f = f.strip_prefix("/repo/").unwrap_or(f);
+                // keep paths relative to the repository root, wherever the repository copy lives
+                let f = if f.contains("/.cargo/") || f.contains("/rustc/") || f.contains("/harness/") {
+                    f
+                } else if let Some(i) = f.find("/slotted-egraphs-derive/") {
+                    &f[i + 1..]
+                } else if let Some(i) = f.find("/src/") {
+                    &f[i + 1..]
+                } else {
+                    f
+                };
                 format!("{}:{}", f, l.line())
             })
             .unwrap_or_else(|| "?".to_string());
